@@ -47,7 +47,7 @@ func (o Obj) Text() string {
 	case KEnum:
 		return Enums[o.Spec]
 	}
-	return Docs[o.Spec]
+	return DocText(o.Spec)
 }
 
 func (o Obj) Ctor() string {
@@ -112,6 +112,8 @@ type Held struct {
 	Reread func() string
 }
 
+// hold snapshots a handed-out value at hand-out time: Snap is a deep copy (a
+// string rendering of everything the holder can read through the value).
 func hold(desc string, reread func() string) Held {
 	return Held{Desc: desc, Snap: reread(), Reread: reread}
 }
@@ -268,6 +270,10 @@ func (w *World) Exec(op Op) (res string, held []Held) {
 			if err != nil && CanonErr(err) != "EOF" {
 				return CanonErr(err), held
 			}
+			// the lexeme is a handed-out value too: kind, bounds and the bytes it designates
+			held = append(held, hold(desc+" lexeme", func() string {
+				return fmt.Sprintf("%s[%d:%d] %q", lex.Type().String(), lex.Begin(), lex.End(), lex.Value())
+			}))
 			return fmt.Sprintf("%s[%d:%d] %s", lex.Type().String(), lex.Begin(), lex.End(), CanonErr(err)), held
 		}
 	}
@@ -578,7 +584,7 @@ func (g *gen) docOpOK(d int, code OpCode) bool {
 // malformed documents and documents with trailing non-space bytes
 func malformedDocs() []int {
 	var out []int
-	for i := range Docs {
+	for i := 0; i < NDocs(); i++ {
 		w := NewWorld(&History{Objs: []Obj{{KDoc, i}}})
 		w.create(0)
 		if r, _ := w.Exec(Op{Code: OpCheck, Obj: 0, Arg: -1}); r != "ok" {
@@ -588,7 +594,7 @@ func malformedDocs() []int {
 	return out
 }
 
-var badDocs = malformedDocs()
+var badDocs []int // set by init (pool.go) once the pools are complete
 
 func (g *gen) emitPending(i int) {
 	q := g.pending[i]
@@ -626,7 +632,7 @@ func (g *gen) directUseOK(i int) bool {
 
 func (g *gen) docFor(schemaObj int) int {
 	id := Schemas[g.h.Objs[schemaObj].Spec].ID
-	spec := g.r.Intn(len(Docs))
+	spec := g.r.Intn(NDocs())
 	switch x := g.r.Intn(10); {
 	case x < 5 && len(docFit[id]) > 0:
 		fit := docFit[id]
@@ -701,7 +707,7 @@ func (g *gen) observeSchema(i int) {
 func Generate(r *rand.Rand, withKnown bool) *History {
 	g := &gen{r: r, h: &History{}, withKnown: withKnown, pending: map[int][]Op{}, added: map[int]bool{}, spent: map[int]bool{},
 		advanced: map[int]bool{}, checked: map[int]bool{}, lened: map[int]bool{}}
-	roots := Roots()
+	roots := AllRoots()
 	nRoots := []int{1, 1, 1, 2, 2, 2, 2, 3, 3}[r.Intn(9)]
 	var rootObjs []int
 	for len(rootObjs) < nRoots {
@@ -798,7 +804,7 @@ func Generate(r *rand.Rand, withKnown bool) *History {
 			if len(ds) > 0 && r.Intn(3) > 0 {
 				d = ds[r.Intn(len(ds))]
 			} else {
-				spec := r.Intn(len(Docs))
+				spec := r.Intn(NDocs())
 				if r.Intn(3) == 0 {
 					spec = badDocs[r.Intn(len(badDocs))]
 				}
